@@ -7,7 +7,15 @@ Open Scope Q_scope.
      nonneg e := 0 <= fst e;  adm w e := 0 <= w /\ w <= fst e;  sumQ ws, wsum ws l := the mass / the weighted value sum
      of a choice of weights;  sorted_by_value := StronglySorted by snd;  entries op d := the (probability, value) list
      both paths build from a distribution d;  states_fit n d := every state of d is below 2^n.
-   Nothing is left unfinished: there are no _partial results. *)
+     B_op alpha V R := if isclose alpha 1 then (1 - alpha) * R else rtol * V;
+     B_bs alpha V R := if isclose alpha 1 then (rtol + atol) * (R + V) / alpha else rtol * V   (R = hi - lo).
+   HEAD (get_expectation, loop break on isclose(gathered, alpha, atol=0)): outside the band isclose alpha 1, i.e.
+   |alpha - 1| <= rtol + atol = 1.001e-5 (C14_near_one_band), the result is within rtol * V = 1e-5 * V of the
+   definition on both paths (and the two paths return the same number); inside the band the constants are
+   (1 - alpha) * R <= (rtol + atol) * R for the operator path and (rtol + atol) * (R + V) / alpha for the unsorted
+   bitstring path.  get_expectation_legacy is the variant before the fix (break on isclose(gathered, alpha) with its
+   absolute tolerance): its bound is (rtol + atol / alpha) * V, and C14_atol_break_refuted shows it really is off by
+   a hundred times rtol.  Nothing is left unfinished: there are no _partial results. *)
 
 (* ---- the specification: sorting, least-ness, order independence, monotonicity, bounds *)
 Theorem C14_sort_perm : forall l, Permutation (sort_by_value l) l.
@@ -60,14 +68,20 @@ Print Assumptions C14_cvar_bounds.
 (* ---- _get_expectation against the specification, alpha not isclose 1 *)
 Theorem C14_exact_or_close : forall l alpha V,
   is_dist l -> 0 < alpha -> alpha <= 1 -> isclose alpha 1 = false -> abs_values_le V l ->
-  exists r, get_expectation l alpha = Ok r /\ Qabs (r - cvar l alpha) <= (rtol + atol / alpha) * V.
+  exists r, get_expectation l alpha = Ok r /\ Qabs (r - cvar l alpha) <= rtol * V.
 Proof. exact exact_or_close. Qed.
 Print Assumptions C14_exact_or_close.
+
+Theorem C14_exact_or_close_legacy : forall l alpha V,
+  is_dist l -> 0 < alpha -> alpha <= 1 -> isclose alpha 1 = false -> abs_values_le V l ->
+  exists r, get_expectation_legacy l alpha = Ok r /\ Qabs (r - cvar l alpha) <= (rtol + atol / alpha) * V.
+Proof. exact exact_or_close_legacy. Qed.
+Print Assumptions C14_exact_or_close_legacy.
 
 Theorem C14_exact_when_no_break : forall l alpha,
   is_dist l -> 0 < alpha -> alpha <= 1 -> isclose alpha 1 = false ->
   (forall k, (1 <= k)%nat ->
-             let G := total_mass (firstn k (sort_by_value l)) in G < alpha -> atol + rtol * alpha < alpha - G) ->
+             let G := total_mass (firstn k (sort_by_value l)) in G < alpha -> rtol * alpha < alpha - G) ->
   exists r, get_expectation l alpha = Ok r /\ r == cvar l alpha.
 Proof. exact exact_when_no_break. Qed.
 Print Assumptions C14_exact_when_no_break.
@@ -89,11 +103,26 @@ Theorem C14_exact_below_smallest_probability_paths : forall n d op alpha,
 Proof. exact exact_below_smallest_probability_paths. Qed.
 Print Assumptions C14_exact_below_smallest_probability_paths.
 
-(* below atol the resolution bound of C14_exact_or_close exceeds the value scale: only the exact clause speaks there *)
-Theorem C14_resolution_bound_vacuous_below_atol : forall alpha V,
+(* concerns only the legacy bound of C14_exact_or_close_legacy: below atol it exceeds the value scale *)
+Theorem C14_legacy_bound_vacuous_below_atol : forall alpha V,
   0 < alpha -> alpha <= atol -> 0 <= V -> V <= (rtol + atol / alpha) * V.
-Proof. exact resolution_bound_vacuous_below_atol. Qed.
-Print Assumptions C14_resolution_bound_vacuous_below_atol.
+Proof. exact legacy_bound_vacuous_below_atol. Qed.
+Print Assumptions C14_legacy_bound_vacuous_below_atol.
+
+(* the absolute break tolerance refuted: 100000 shots, one on -1, alpha = 1.001e-5 *)
+Theorem C14_atol_break_refuted :
+  is_dist [(1 # 100000, - (1)); (99999 # 100000, 1)] /\ abs_values_le 1 [(1 # 100000, - (1)); (99999 # 100000, 1)] /\
+  isclose (1001 # 100000000) 1 = false /\
+  exists r_legacy r_head,
+    get_expectation_legacy [(1 # 100000, - (1)); (99999 # 100000, 1)] (1001 # 100000000) = Ok r_legacy /\
+    get_expectation [(1 # 100000, - (1)); (99999 # 100000, 1)] (1001 # 100000000) = Ok r_head /\
+    cvar [(1 # 100000, - (1)); (99999 # 100000, 1)] (1001 # 100000000) == - (999 # 1001) /\
+    r_head == cvar [(1 # 100000, - (1)); (99999 # 100000, 1)] (1001 # 100000000) /\
+    r_legacy == - (1000 # 1001) /\
+    Qabs (r_legacy - cvar [(1 # 100000, - (1)); (99999 # 100000, 1)] (1001 # 100000000)) == 1 # 1001 /\
+    rtol * 1 < Qabs (r_legacy - cvar [(1 # 100000, - (1)); (99999 # 100000, 1)] (1001 # 100000000)).
+Proof. exact atol_break_refuted. Qed.
+Print Assumptions C14_atol_break_refuted.
 
 (* ---- alpha = 1 *)
 Theorem C14_alpha_one_operator : forall d op,
@@ -110,6 +139,12 @@ Theorem C14_alpha_one_bitstring : forall l V, is_dist l -> abs_values_le V l ->
             (Forall (fun e => rtol + atol < fst e) l -> r == expectation l).
 Proof. exact alpha_one_bitstring. Qed.
 Print Assumptions C14_alpha_one_bitstring.
+
+Theorem C14_alpha_one_bitstring_sharp : forall l V, is_dist l -> abs_values_le V l ->
+  exists r, get_expectation l 1 = Ok r /\ Qabs (r - expectation l) <= rtol * V /\
+            (Forall (fun e => rtol < fst e) l -> r == expectation l).
+Proof. exact alpha_one_bitstring_sharp. Qed.
+Print Assumptions C14_alpha_one_bitstring_sharp.
 
 (* ---- alpha isclose 1 *)
 Theorem C14_near_one_cvar : forall l alpha lo hi, is_dist l -> 0 < alpha -> alpha <= 1 -> values_within lo hi l ->
@@ -163,7 +198,7 @@ Theorem C14_paths_agree : forall n d op alpha lo hi V,
   exists r1 r2,
     expectation_with_operator d op alpha = Ok r1 /\ expectation_with_bitstring n d n op alpha = Ok r2 /\
     (isclose alpha 1 = false ->
-       r1 = r2 /\ Qabs (r1 - cvar (entries op d) alpha) <= (rtol + atol / alpha) * V) /\
+       r1 = r2 /\ Qabs (r1 - cvar (entries op d) alpha) <= rtol * V) /\
     (isclose alpha 1 = true ->
        Qabs (r1 - cvar (entries op d) alpha) <= (1 - alpha) * (hi - lo) /\
        Qabs (r2 - cvar (entries op d) alpha) <= (rtol + atol) * ((hi - lo) + V) / alpha /\
@@ -176,16 +211,66 @@ Print Assumptions C14_paths_agree.
 Theorem C14_impl_mono : forall l a1 a2 V,
   is_dist l -> 0 < a1 -> a1 <= a2 -> a2 <= 1 -> isclose a1 1 = false -> isclose a2 1 = false -> abs_values_le V l ->
   exists r1 r2, get_expectation l a1 = Ok r1 /\ get_expectation l a2 = Ok r2 /\
-                r1 <= r2 + (rtol + atol / a1) * V + (rtol + atol / a2) * V.
+                r1 <= r2 + rtol * V + rtol * V.
 Proof. exact impl_mono. Qed.
 Print Assumptions C14_impl_mono.
 
 Theorem C14_impl_range : forall l alpha lo hi V,
   is_dist l -> 0 < alpha -> alpha <= 1 -> isclose alpha 1 = false -> values_within lo hi l -> abs_values_le V l ->
   exists r, get_expectation l alpha = Ok r /\
-            lo - (rtol + atol / alpha) * V <= r /\ r <= expectation l + (rtol + atol / alpha) * V.
+            lo - rtol * V <= r /\ r <= expectation l + rtol * V.
 Proof. exact impl_range. Qed.
 Print Assumptions C14_impl_range.
+
+(* ---- the same for every alpha in (0, 1], with the explicit slack of the band isclose alpha 1 *)
+Theorem C14_near_one_band : forall alpha,
+  0 < alpha -> alpha <= 1 -> (isclose alpha 1 = true <-> 1 - alpha <= 1001 # 100000000).
+Proof. exact near_one_band. Qed.
+Print Assumptions C14_near_one_band.
+
+Theorem C14_get_expectation_close : forall l alpha lo hi V,
+  is_dist l -> 0 < alpha -> alpha <= 1 -> values_within lo hi l -> abs_values_le V l ->
+  exists r, get_expectation l alpha = Ok r /\ Qabs (r - cvar l alpha) <= B_bs alpha V (hi - lo).
+Proof. exact get_expectation_close. Qed.
+Print Assumptions C14_get_expectation_close.
+
+Theorem C14_operator_close : forall d op alpha lo hi V,
+  is_dist (entries op d) -> 0 < alpha -> alpha <= 1 ->
+  values_within lo hi (entries op d) -> abs_values_le V (entries op d) ->
+  exists r, expectation_with_operator d op alpha = Ok r /\
+            Qabs (r - cvar (entries op d) alpha) <= B_op alpha V (hi - lo).
+Proof. exact operator_close. Qed.
+Print Assumptions C14_operator_close.
+
+Theorem C14_impl_mono_all : forall l a1 a2 lo hi V,
+  is_dist l -> 0 < a1 -> a1 <= a2 -> a2 <= 1 -> values_within lo hi l -> abs_values_le V l ->
+  exists r1 r2, get_expectation l a1 = Ok r1 /\ get_expectation l a2 = Ok r2 /\
+                r1 <= r2 + B_bs a1 V (hi - lo) + B_bs a2 V (hi - lo).
+Proof. exact impl_mono_all. Qed.
+Print Assumptions C14_impl_mono_all.
+
+Theorem C14_impl_range_all : forall l alpha lo hi V,
+  is_dist l -> 0 < alpha -> alpha <= 1 -> values_within lo hi l -> abs_values_le V l ->
+  exists r, get_expectation l alpha = Ok r /\
+            lo - B_bs alpha V (hi - lo) <= r /\ r <= expectation l + B_bs alpha V (hi - lo).
+Proof. exact impl_range_all. Qed.
+Print Assumptions C14_impl_range_all.
+
+Theorem C14_operator_mono_all : forall d op a1 a2 lo hi V,
+  is_dist (entries op d) -> 0 < a1 -> a1 <= a2 -> a2 <= 1 ->
+  values_within lo hi (entries op d) -> abs_values_le V (entries op d) ->
+  exists r1 r2, expectation_with_operator d op a1 = Ok r1 /\ expectation_with_operator d op a2 = Ok r2 /\
+                r1 <= r2 + B_op a1 V (hi - lo) + B_op a2 V (hi - lo).
+Proof. exact operator_mono_all. Qed.
+Print Assumptions C14_operator_mono_all.
+
+Theorem C14_operator_range_all : forall d op alpha lo hi V,
+  is_dist (entries op d) -> 0 < alpha -> alpha <= 1 ->
+  values_within lo hi (entries op d) -> abs_values_le V (entries op d) ->
+  exists r, expectation_with_operator d op alpha = Ok r /\
+            lo - B_op alpha V (hi - lo) <= r /\ r <= expectation (entries op d) + B_op alpha V (hi - lo).
+Proof. exact operator_range_all. Qed.
+Print Assumptions C14_operator_range_all.
 
 (* ---- the hypotheses are satisfiable *)
 Example C14_example_is_dist : is_dist [(1 # 4, 3); (1 # 4, 1); (1 # 2, 2)].
